@@ -12,7 +12,9 @@ import (
 	r "github.com/Trisia/randomness"
 	"github.com/Trisia/randomness/detect"
 
+	"verif/checks/fast"
 	"verif/common"
+	"verif/e1"
 	"verif/seam"
 	"verif/wf"
 )
@@ -257,17 +259,58 @@ func Run(ctx *common.Ctx) int {
 			}
 		}
 	}
+	// ---------- a rejected source beside a healthy one ----------
+	// "always rejected" includes the moment another goroutine is judging a healthy source with the same kind of
+	// detection: under the controlled scheduler (stub runners: the bad stream's samples fail item 0, as a stuck
+	// source's do) the bad call and a concurrent call on a healthy stream are interleaved at every Read/round point
+	// with <= 1 scheduling deviation under four default policies; each must return what it returns alone
+	pairExecs, pairTasks := 0, 0
+	var pairInfo *e1.BuildInfo
+	if info, err := fast.BuildInstrumented(ctx); err != nil {
+		ctx.Note("concurrent-pair part skipped: the detect package cannot be instrumented (%v)", err)
+		capped = true
+	} else {
+		pairInfo = info
+		var tasks []e1.Task
+		for wi := range wf.All {
+			w := &wf.All[wi]
+			if quick && w.Name == "Factory" {
+				continue
+			}
+			for _, judgeSeq := range []bool{true, false} {
+				for _, other := range []string{"seq", "fast"} {
+					for _, pol := range []int{0, 1, 2, 3} {
+						if quick && w.Name == "PowerOn" && pol%2 == 1 {
+							continue
+						}
+						fast.MkTaskX("C14", "c14", w, "item0-below-threshold", fast.SrcSpec{Kind: "full", Index2: -1}, 2, 1, pol, 1, fast.Params{Pair: other, JudgeSeq: judgeSeq}, &tasks)
+					}
+				}
+			}
+		}
+		m := e1.RunTasks(ctx, info.Bin, tasks, 0, false)
+		pc := fast.Report(ctx, m, info, nil)
+		pairExecs, pairTasks = m.Execs, len(tasks)
+		if !pc["exhaustive"].(bool) {
+			capped = true
+		}
+		evals += int64(m.Execs)
+	}
+	_ = pairInfo
+	samples = append(samples, map[string]interface{}{"part": "rejected source beside a healthy one", "tasks": pairTasks, "schedules": pairExecs})
 	samples = append(samples, map[string]interface{}{"function": "SingleDetect", "streams": "0x00.. and 0xFF.. (every other length preceded by a healthy request of 4096.. bytes)", "lengths": "every 16..4096, 12500, 125000, and 2^k-1, 2^k, 2^k+1, 2^k(1+1/16), 2^k(1+1/3) for k=13..22 (thorough also 2^23, 2^24, 12500000)"})
 	cov := common.Coverage{
 		"evaluations":         int(evals),
 		"distinct_nontrivial": len(streams) + 2,
 		"rule": "every listed periodic byte stream (constant bytes: 16 in quick, all 256 in thorough; periods 2..64 (quick 2,3,64) x {counter, bit-balanced, fixed filler}; a lone 0x01 in zeros at every position for p in {2,63,64}) x the six multi-sample workflows with the REAL registry runners (memoised per (item, sample hash): a periodic stream has at most p/gcd(p,n) distinct samples); " +
+			"a rejected stream judged while a second goroutine judges a healthy stream with the same detection (seq|fast x seq|fast, stub runners, every interleaving with <= 1 deviation under four default policies); " +
 			"all-zero / all-one sources x every single-shot length; oracle: verdict false with a non-nil error, no panic; distinct = number of distinct streams",
 		"samples":                  samples,
 		"streams":                  len(streams),
 		"real_runner_evaluations":  computed,
 		"memo_hits":                hits,
 		"rejections_by_named_item": rejectedBy.Map(),
+		"concurrent_pair_schedules": pairExecs,
 		"exhaustive":               !capped,
 	}
 	return ctx.Finish("exploration", cov, []string{"the parallel variants run free-running on a locked source: the property quantifies inputs only (schedules are C08's subject)",
